@@ -839,9 +839,12 @@ esl_opt_SpoofCmdline(const ESL_GETOPTS *g, char **ret_cmdline)
   ESL_ALLOC(cmdline, sizeof(char) * (ntot+1)); // +1 for the \0
   snprintf(cmdline, ntot+1, "%s ", g->argv[0]);
   
-  /* Options */
+  /* Options: those that were set and are on. An option that was switched off
+   * (val is NULL: toggled off by another option that is itself listed here)
+   * has no command line form; listing its name would switch it back on.
+   */
   for (i = 0; i < g->nopts; i++)
-    if (g->setby[i] != eslARG_SETBY_DEFAULT) 
+    if (g->setby[i] != eslARG_SETBY_DEFAULT && g->val[i] != NULL) 
       {
 	if (g->opt[i].type == eslARG_NONE) n = strlen(g->opt[i].name) + 1;
 	else                               n = (strlen(g->opt[i].name) + strlen(g->val[i])) + 2;
